@@ -108,7 +108,7 @@ def keydir():
     return d
 
 
-def prune_builds(keep=3):
+def prune_builds(keep=5):
     ds = sorted(glob.glob(BUILD + "/tree-*"), key=os.path.getmtime, reverse=True)
     for d in ds[keep:]:
         shutil.rmtree(d, ignore_errors=True)
